@@ -412,8 +412,75 @@ def real_strategy():
     )
 
 
+# ------------------------------------------------------------------- depth
+
+
+def check_deep(case):
+    """A single chain of nested actions, `depth` deep, in emission order and reversed."""
+    depth = case["depth"]
+    msgs = []
+    level = []
+    n = 0
+    for d in range(depth):
+        n += 1
+        msgs.append({"task_uuid": "deep", "task_level": level + [1], "timestamp": float(n), "action_type": "a%d" % d, "action_status": "started"})
+        level = level + [2]
+    for d in reversed(range(depth)):
+        level = level[:-1]
+        n += 1
+        msgs.append({"task_uuid": "deep", "task_level": level + [3 if d < depth - 1 else 2], "timestamp": float(n), "action_type": "a%d" % d, "action_status": "succeeded"})
+    # any subset parses: the innermost start message on its own
+    try:
+        alone = list(Parser.parse_stream(iter([msgs[depth - 1]])))
+    except RecursionError:
+        raise Violation("parser-recursion", "parse_stream raised RecursionError for the single start message of an action nested %d deep" % depth)
+    except Exception as e:
+        raise Violation("parse_stream-raised", "%r for one message nested %d deep" % (e, depth))
+    require(len(alone) == 1 and not alone[0].is_complete(), "deep-incomplete", "a lone inner message must parse to one incomplete task")
+    for order in (msgs, list(reversed(msgs))):
+        try:
+            tasks = list(Parser.parse_stream(iter(order)))
+        except RecursionError as e:
+            raise Violation("parser-recursion", "parse_stream raised RecursionError for a task nested %d deep (%d messages)" % (depth, len(msgs)))
+        except Exception as e:
+            raise Violation("parse_stream-raised", "%r for a task nested %d deep" % (e, depth))
+        require(len(tasks) == 1 and tasks[0].is_complete(), "deep-incomplete", lambda: "a complete task nested %d deep parsed into %d tasks, complete=%r" % (depth, len(tasks), [t.is_complete() for t in tasks]))
+        node = tasks[0].root()
+        seen = 0
+        while True:
+            seen += 1
+            kids = [c for c in node.children]
+            if not kids:
+                break
+            require(len(kids) == 1, "deep-shape", "a chain node has %d children" % len(kids))
+            node = kids[0]
+        require(seen == depth, "deep-shape", lambda: "chain of %d actions parsed to depth %d" % (depth, seen))
+    return {"depth": depth}
+
+
+def classify_deep(case, info):
+    return info["depth"] >= 50, ["depth=%d" % info["depth"]]
+
+
+def deep_runner(mod, facet, tier, seed, shard, nshards, stats):
+    from ..core import enumerate_cases
+
+    # bounded by construction: beyond a few hundred levels the parser's recursion exceeds CPython's default limit
+    # (open known finding F18)
+    cases = [{"depth": d} for d in (1, 2, 3, 10, 30, 60, 90, 120)]
+    stats.extra["excluded_by_construction"] = "depth > 120 (F18)"
+    enumerate_cases(mod, facet, cases, shard, nshards, stats, exhaustive=True)
+
+
+def _known_f18(facet, case, violation):
+    return facet == "deep" and violation.kind == "parser-recursion" and case.get("depth", 0) > 120
+
+
+KNOWN = {"F18-parser-recursion-depth": _known_f18}
+
 FACETS = [
     Facet("enumerated", None, check_synth, classify, quick=1, thorough=1, quick_shards=8, thorough_shards=16, runner=enumerated_runner),
     Facet("synthetic", synth_strategy, check_synth, classify, quick=250, thorough=5000),
+    Facet("deep", None, check_deep, classify_deep, quick=1, thorough=1, quick_shards=4, thorough_shards=4, runner=deep_runner),
     Facet("real", real_strategy, check_real, classify_real, quick=200, thorough=4000),
 ]
